@@ -75,12 +75,13 @@ class Ctx(object):
     def oblige(self, name, goal, kind='ensures', tags=(), note='', use=None):
         if z3.is_true(goal):
             goal = z3.BoolVal(True)
-        if use is None:
+        if use is None or getattr(self, 'full_hyps', False):
             hs = list(self.hyps)
         else:
             hs = [h for h, c in zip(self.hyps, self.hyp_cats) if c is None or c in use]
-        self.obligations.append(Obligation(name, goal, hs + self.pc, kind, tags,
-                                           path=list(self.trace), where=self.where, note=note))
+        ob = Obligation(name, goal, hs + self.pc, kind, tags, path=list(self.trace), where=self.where, note=note)
+        ob.call = getattr(self, 'call', None)
+        self.obligations.append(ob)
 
     def feasible(self, cond):
         self.n_feas += 1
